@@ -1,7 +1,11 @@
 package vh
 
 import (
+	"encoding/json"
 	"fmt"
+	"os"
+	"os/exec"
+	"strings"
 
 	"pgregory.net/rapid"
 	"vh/drv"
@@ -22,6 +26,7 @@ type C04Case struct {
 	Noise   []*NoiseOp `json:"noise,omitempty"`
 	ExGen   *GenSpec   `json:"exgen,omitempty"` // Example(seed) clause
 	ExSeeds []int      `json:"exseeds,omitempty"`
+	Fresh   bool       `json:"fresh,omitempty"` // compare the Example values with those of a fresh process
 }
 
 type c04 struct{}
@@ -70,6 +75,12 @@ func (c04) Gen(dt *drv.T, c *Ctx) any {
 	if chance(dt, "exclause", 30) {
 		cs.ExGen = GenGenSpec(dt, GenCfg{Depth: 2, SmallInts: true, RejectHeavy: true})
 		cs.ExSeeds = drv.SliceOfN(drv.IntRange(0, 1<<30), 1, 4).Draw(dt, "exseeds")
+		if chance(dt, "fresh", 12) {
+			cs.Fresh = true
+			if chance(dt, "freshre", 60) {
+				cs.ExGen = &GenSpec{K: pick(dt, "rek", "strmatch", "bytesmatch"), Re: pick(dt, "re", regexpPool...)}
+			}
+		}
 	}
 	return cs
 }
@@ -186,6 +197,25 @@ func (c04) Run(c *Ctx, csAny any) Outcome {
 			if got := exampleOf(exg, s); got != ex1[i] {
 				out.Viol = violf("C04:example-differs", "Example(%d) gave %s first and %s later", s, ex1[i], got)
 				return out
+			}
+		}
+		if cs.Fresh {
+			// the same expression and seeds in a fresh process, which has no history of other generators at all
+			js, _ := json.Marshal(struct {
+				Spec  *GenSpec `json:"spec"`
+				Seeds []int    `json:"seeds"`
+			}{cs.ExGen, cs.ExSeeds})
+			cmd := exec.Command(os.Getenv("VERIF_BIN"), "-test.run", "^$")
+			cmd.Env = append(os.Environ(), "VERIF_CHILD=example", "VERIF_CASE="+string(js))
+			if b, err := cmd.Output(); err == nil {
+				out.Classes = append(out.Classes, "fresh-process-compared")
+				lines := strings.Split(strings.TrimSpace(string(b)), "\n")
+				for i := range cs.ExSeeds {
+					if i < len(lines) && lines[i] != ex1[i] {
+						out.Viol = violf("C04:depends-on-process-history", "Example(%d) of %s gives %s in this process (which has used many other generators before) and %s in a fresh process", cs.ExSeeds[i], cs.ExGen.desc(), ex1[i], lines[i])
+						return out
+					}
+				}
 			}
 		}
 	}
